@@ -157,6 +157,15 @@ func isDone(p *protocol.Protocol) bool {
 	}
 }
 
+func isDoneNow(p *protocol.Protocol) bool {
+	select {
+	case <-p.DoneChan():
+		return true
+	default:
+		return false
+	}
+}
+
 func (c *conn) start() { c.ma.Start(); c.mb.Start() }
 func (c *conn) stop()  { c.ma.Stop(); c.mb.Stop() }
 
@@ -387,7 +396,7 @@ func (e *lsqEnd) call(op string, tag int) obs {
 	case "qx":
 		res, err := e.client.GetStakeDelegDeposits([]lsq.StakeCredential{credX(tag)})
 		if err != nil {
-			if errors.Is(err, protocol.ErrProtocolShuttingDown) || e.dead() {
+			if errors.Is(err, protocol.ErrProtocolShuttingDown) || isDoneNow(e.client.Protocol) {
 				return errObs(err)
 			}
 			// the connection is alive: the call reports that its reply does not decode
@@ -898,10 +907,10 @@ func runRow(r *row, pd protoDef, seed int64) (fs []finding, calls int, dead stri
 	firstX, branch := -1, ""
 	for g := 0; g < r.G; g++ {
 		for i, op := range r.Prog[g] {
+			if !isDead && results[g][i].err != "" && ep.supports(op) {
+				isDead = ep.dead() // (waits a moment for the shutdown to complete: only where a call failed)
+			}
 			if op == "qx" && ep.supports(op) {
-				if !isDead && results[g][i].err != "" {
-					isDead = ep.dead()
-				}
 				if firstX < 0 || invPos[g][i] < firstX {
 					firstX = invPos[g][i]
 					branch = "raw"
